@@ -12,6 +12,7 @@ type tctx struct {
 	ctx    string // "tmpl" | "macrolet-tmpl"
 	qual   bool   // write global references package-qualified
 	outer  bool   // macrolet: may refer to enclosing locals
+	self   string // macrolet: its own name shadows any global of that name in its body
 }
 
 func (g *gen) tbLookup(tc *tctx, name string) *bind {
@@ -53,7 +54,7 @@ func (g *gen) tglobals(tc *tctx, pred func(*bind) bool) []*bind {
 			if b.pkg != g.cur.name || g.tbLookup(tc, b.name) != nil {
 				continue
 			}
-			if tc.ctx == "macrolet-tmpl" && g.lookup(b.name) != b {
+			if tc.ctx == "macrolet-tmpl" && (g.lookup(b.name) != b || b.name == tc.self || g.avoid[b.name]) {
 				continue
 			}
 			if tc.macroScopeHas(b.name) {
@@ -110,7 +111,7 @@ func (g *gen) tleaf(tc *tctx) {
 		// macrolet template referring to a local of the enclosing function
 		if cs := g.cands(func(b *bind) bool { return !b.global && isNumVar(b) }); len(cs) > 0 {
 			c := g.pickCand(cs)
-			if g.tbLookup(tc, c.b.name) == nil {
+			if g.tbLookup(tc, c.b.name) == nil && c.b.name != tc.self {
 				g.feat("macrolet-outer-local")
 				g.ref(c, tc.ctx)
 				return
@@ -348,6 +349,11 @@ func (g *gen) macroUsable(m *bind) (cand, bool) {
 		return cand{}, false
 	}
 	for _, f := range m.tmplFree {
+		if g.avoid[f.name] {
+			// e.g. inside a closure in the init expression of a let that binds
+			// the same name: the evaluator's single let frame would capture it
+			return cand{}, false
+		}
 		if g.lookup(f.name) != f || g.pkgs[f.pkg].own[f.name] != f {
 			return cand{}, false
 		}
@@ -380,6 +386,11 @@ func (g *gen) macroCallOf(c cand, d int) {
 	g.feat("macro-call")
 	g.e.open()
 	g.ref(c, "macro-call")
+	if len(m.name) > 3 && m.name[:3] == "def" && g.e.ctx == "" {
+		// everything inside the arguments of a def-named macro call
+		g.e.ctx = "def-macro-arg"
+		defer func() { g.e.ctx = "" }()
+	}
 	g.withAvoid(m.tmplAvoid, func() {
 		for range m.sig.req {
 			g.num(d - 1)
@@ -417,9 +428,13 @@ func (g *gen) macroCall(d int) bool {
 func (g *gen) macroletForm(d int) {
 	g.feat("macrolet")
 	g.feat("template")
-	m := &bind{id: g.newID(), name: g.fixName(g.pick(macroPool)), kind: "macrolet", isMacro: true}
+	mname := g.fixName(g.pick(macroPool))
+	if !g.trig["defname"] && len(mname) > 3 && mname[:3] == "def" {
+		mname = "my-" + mname
+	}
+	m := &bind{id: g.newID(), name: mname, kind: "macrolet", isMacro: true}
 	p := g.newLocal(g.fixName(g.pick(localPool)), "macrolet-param", tNum)
-	tc := &tctx{free: map[*bind]bool{}, avoid: map[string]bool{}, ctx: "macrolet-tmpl", outer: true, params: []*bind{p}}
+	tc := &tctx{free: map[*bind]bool{}, avoid: map[string]bool{}, ctx: "macrolet-tmpl", outer: true, params: []*bind{p}, self: m.name}
 	g.e.head("macrolet")
 	g.e.open()
 	g.e.open()
@@ -432,7 +447,7 @@ func (g *gen) macroletForm(d int) {
 	g.e.close()
 	g.e.close()
 	g.e.close()
-	var av []string
+	av := []string{m.name}
 	for n := range tc.avoid {
 		av = append(av, n)
 	}
@@ -440,7 +455,13 @@ func (g *gen) macroletForm(d int) {
 	for i, n := 0, 1+g.intn(2); i < n; i++ {
 		g.e.open()
 		g.e.sym(Occ{N: m.name, R: "ref", B: m.id, K: "macrolet", C: "macro-call"})
-		g.withAvoid(av, func() { g.num(d - 1) })
+		if len(m.name) > 3 && m.name[:3] == "def" && g.e.ctx == "" {
+			g.e.ctx = "def-macro-arg"
+			g.withAvoid(av, func() { g.num(d - 1) })
+			g.e.ctx = ""
+		} else {
+			g.withAvoid(av, func() { g.num(d - 1) })
+		}
 		g.e.close()
 	}
 	g.e.close()
